@@ -1,8 +1,14 @@
 """Generator of core-fragment programs (Lang): one abstract tree -> Python source text + S-expression for the Lean model."""
 from __future__ import annotations
 
+import random as _random
+import zlib as _zlib
+
 INTS = ["a", "b", "c", "d"]
 BOOLS = ["p", "q"]
+STRS = ["s", "t"]          # W13: string-typed names, first assigned at top level (`u` is introduced by a promoted branch)
+LIT_CHARS = "abcxyzKQ019 _=:!.-"      # plus now and then one of LIT_ODD (escaping in the C++ literal); never `#` alone (the mock's marker line)
+LIT_ODD = ['"', "\\", "'", "%", "{", "}", "?", "(", ")", ";", "//"]
 BIN = {"add": "+", "sub": "-", "mul": "*", "band": "&", "bor": "|", "bxor": "^", "fdiv": "//", "fmod": "%"}
 BIT = ["band", "bor", "bxor"]
 DIV = ["fdiv", "fmod"]
@@ -11,8 +17,9 @@ CMP = {"lt": "<", "le": "<=", "gt": ">", "ge": ">=", "eq": "==", "ne": "!="}
 
 
 class G:
-    def __init__(self, rng, max_depth=3, promote=False, chains=False):
+    def __init__(self, rng, max_depth=3, promote=False, chains=False, strings=False):
         self.rng = rng
+        self.strings = strings      # W13: a post-pass (own PRNG seeded from the finished program, so the int/bool stream is unchanged) adds text
         self.chains = chains        # conditions may be chained comparisons `a < b <= c` (sugar for `a < b and b <= c`; the model sees the conjunction)
         self.max_depth = max_depth
         self.promote = promote      # top-level compound statements of the prologue may introduce names directly in their bodies (tr2)
@@ -256,7 +263,141 @@ class G:
             loop = self.block(self.max_depth - 1, names, False, r.randint(1, 4))
         # counters of bounded whiles must be declared at top level (fragment) and reset before each while
         decls = [("as", f"n{k}", ("i", 0)) for k in range(1, self.counters + 1)]
-        return {"pre": pre + decls + body_pre, "loop": loop}
+        prog = {"pre": pre + decls + body_pre, "loop": loop}
+        if self.strings:
+            prog = add_strings(prog, len(pre) + len(decls), names, self.promote)
+        return prog
+
+
+# ---- W13: strings.  ('s', text) literal, ('v', 's'|'t'|'u') names, ('ite', c, a, b) over strings; later increments: ('bin','add',…), ('str', e), ('fstr', parts)
+class S:
+    """string-typed expressions and statements over the declared names, drawn from a PRNG of its own"""
+    def __init__(self, r, inames, level):
+        self.r, self.inames, self.level = r, inames, level
+
+    def lit(self):
+        r = self.r
+        n = r.choice([0, 1, 1, 2, 3, 3, 5, 8])
+        cs = [r.choice(LIT_ODD) if r.random() < 0.08 else r.choice(LIT_CHARS) for _ in range(n)]
+        text = "".join(cs)
+        return ("s", "x" if text == "#" else text)
+
+    def cond(self):
+        r = self.r
+        return ("cmp", r.choice(list(CMP)), ("v", r.choice(self.inames)), ("i", r.randint(0, 9)))
+
+    def expr(self, d, snames, ivars=()):
+        r = self.r
+        if d <= 0 or r.random() < 0.35:
+            return ("v", r.choice(snames)) if snames and r.random() < 0.55 else self.lit()
+        k = r.choice(["ite", "cat", "cat", "cat", "str", "str", "strs", "fstr", "fstr", "fstr"])
+        if k == "fstr":
+            # f-string: literal text (no quote / brace / backslash) alternating with formatted int- or string-typed values; the model is
+            # sent what `_to_c_expr` makes of a JoinedStr: the left fold `String("lit") + String(e) + "lit" + …` (see `sx_expr`)
+            parts, want_lit = [], r.random() < 0.6
+            for _ in range(r.randint(1, 4)):
+                if want_lit:
+                    parts.append(("lit", "".join(r.choice(LIT_CHARS) for _ in range(r.randint(1, 4)))))
+                else:
+                    parts.append(("fv", ("v", r.choice(snames)) if snames and r.random() < 0.4 else G(r).int_expr(r.choice([0, 0, 1]), self.inames + list(ivars))))
+                want_lit = not want_lit if r.random() < 0.8 else False
+            if r.random() < 0.1:
+                parts = [pt for pt in parts if pt[0] == "lit"][:1] or parts      # an f-string without formatted values is a plain literal
+            return ("fstr", parts)
+        if k == "ite":
+            return ("ite", self.cond(), self.expr(d - 1, snames, ivars), self.expr(d - 1, snames, ivars))
+        if k == "str":
+            # `str(e)` of an int-typed expression whose Python value is an int (never a bool: `str(True)` is "True", `String(true)` is "1")
+            return ("str", G(r).int_expr(r.choice([0, 1, 1, 2]), self.inames + list(ivars)))
+        if k == "strs":
+            return ("str", self.expr(d - 1, snames, ivars))
+        a, b = self.expr(d - 1, snames, ivars), self.expr(d - 1, snames, ivars)
+        if a[0] != "s" and cstr(a) and cstr(b):
+            # `const char* + const char*` does not compile (the emitter wraps only a LITERAL left operand): outside `Expr.wt`
+            b = ("str", b)
+        return ("bin", "add", a, b)
+
+    def stmt(self, snames, ivars=()):
+        r = self.r
+        k = r.choice(["wr", "wr", "wr", "as", "as", "swap", "aug"])
+        if k == "swap" and len(snames) >= 2:
+            a, b = r.sample(snames, 2)
+            return ("tup", [a, b], [("v", b), ("v", a)])
+        if k == "as" and snames:
+            return ("as", r.choice(snames), self.expr(2, snames, ivars))
+        if k == "aug" and snames:
+            return ("aug", r.choice(snames), "add", self.expr(1, snames, ivars))
+        return ("wr", self.expr(2, snames, ivars))
+
+
+def cstr(e):
+    """the emitted C++ expression is a `const char*` (mirrors `Expr.cstr`)"""
+    return e[0] == "s" or (e[0] == "ite" and cstr(e[2]) and cstr(e[3])) or (e[0] == "fstr" and all(pt[0] == "lit" for pt in e[1]))
+
+
+def fstr_fold(parts):
+    """what the transpiler emits for a JoinedStr, as an expression tree: no formatted value -> one literal; otherwise the left fold of `+`
+    over the parts, a formatted value `{e}` being `str(e)` (emitted `String(e)`), a literal first part being wrapped by the `+` rule"""
+    if all(pt[0] == "lit" for pt in parts):
+        return ("s", "".join(pt[1] for pt in parts))
+    acc = None
+    for kind, x in parts:
+        nxt = ("s", x) if kind == "lit" else ("str", x)
+        acc = nxt if acc is None else ("bin", "add", acc, nxt)
+    return acc
+
+
+def add_strings(prog, ndecl, names, promote):
+    """declare `s` (and mostly `t`) after the first `ndecl` top-level statements and sprinkle string statements (serial writes of
+    literals / names / conditional expressions, assignments, swaps) over every block; with `promote`, sometimes a top-level
+    if/else whose branches first assign `u`"""
+    r = _random.Random(_zlib.crc32(repr(prog).encode()))
+    if r.random() < 0.25:
+        return prog
+    inames = [n for n in names if n in INTS]
+    g = S(r, inames, 1)
+    snames = STRS[: r.choice([1, 2, 2])]
+    decls = []
+    for i, n in enumerate(snames):
+        decls.append(("as", n, r.choice([g.lit(), g.lit(), g.expr(1, snames[:i]), ("ite", ("cmp", "lt", ("i", r.randint(0, 5)), ("i", 3)), g.lit(), g.lit())])))
+
+    def inner(st, iv):
+        k = st[0]
+        if k == "if":
+            els = st[3]
+            if len(els) == 1 and els[0][0] == "if":
+                els = [inner(els[0], iv)]      # an `elif` chain stays a chain: nothing is put next to the inner `if`
+            elif els:
+                els = walk(els, iv)
+            return ("if", st[1], walk(st[2], iv), els)
+        if k == "for":
+            return ("for", st[1], st[2], walk(st[3], iv + (st[1],)))
+        if k == "seqw":
+            w = st[2]
+            return ("seqw", st[1], ("while", w[1], walk(w[2], iv)))
+        return st
+
+    def walk(block, iv=()):
+        out = []
+        for st in block:
+            if r.random() < 0.22:
+                out.append(g.stmt(snames, iv))
+            out.append(inner(st, iv))
+        if r.random() < 0.3:
+            out.append(g.stmt(snames, iv))
+        return out
+
+    pre = prog["pre"][:ndecl] + decls + walk(prog["pre"][ndecl:])
+    if promote and r.random() < 0.5:
+        both = r.random() < 0.8
+        pre += [("if", g.cond(), [("as", "u", g.expr(1, snames))] + ([("wr", ("v", "u"))] if r.random() < 0.5 else []),
+                 [("as", "u", g.expr(1, snames))] if both else [])]
+        if both or r.random() < 0.5:
+            pre.append(("wr", ("v", "u")))
+    loop = prog["loop"]
+    if loop is not None:
+        loop = walk(loop)
+    return {"pre": pre, "loop": loop}
 
 
 def flatten(block):
@@ -280,6 +421,7 @@ def py_expr(e):
     k = e[0]
     if k == "i": return str(e[1])
     if k == "b": return "True" if e[1] else "False"
+    if k == "s": return repr(e[1])
     if k == "v": return e[1]
     if k == "bin": return f"({py_expr(e[2])} {BIN[e[1]]} {py_expr(e[3])})"
     if k == "neg": return f"(-{py_expr(e[1])})"
@@ -290,6 +432,8 @@ def py_expr(e):
     if k == "ite": return f"({py_expr(e[2])} if {py_expr(e[1])} else {py_expr(e[3])})"
     if k == "abs": return f"abs({py_expr(e[1])})"
     if k in ("min", "max"): return f"{k}({', '.join(py_expr(a) for a in e[1])})"
+    if k == "str": return f"str({py_expr(e[1])})"
+    if k == "fstr": return 'f"' + "".join(x if kind == "lit" else "{" + py_expr(x) + "}" for kind, x in e[1]) + '"'
     if k == "raw": return e[1]
     raise ValueError(e)
 
@@ -345,6 +489,7 @@ def sx_expr(e):
     k = e[0]
     if k == "i": return f"(i {e[1]})"
     if k == "b": return f"(b {'T' if e[1] else 'F'})"
+    if k == "s": return f"(s x{e[1].encode().hex()})"
     if k == "v": return f"(v {e[1]})"
     if k == "bin": return f"(bin {e[1]} {sx_expr(e[2])} {sx_expr(e[3])})"
     if k == "neg": return f"(neg {sx_expr(e[1])})"
@@ -354,6 +499,8 @@ def sx_expr(e):
     if k == "not": return f"(not {sx_expr(e[1])})"
     if k == "ite": return f"(ite {sx_expr(e[1])} {sx_expr(e[2])} {sx_expr(e[3])})"
     if k == "abs": return f"(abs {sx_expr(e[1])})"
+    if k == "str": return f"(str {sx_expr(e[1])})"
+    if k == "fstr": return sx_expr(fstr_fold(e[1]))
     if k in ("min", "max"):
         acc = sx_expr(e[1][0])
         for a in e[1][1:]:
